@@ -17,6 +17,7 @@ mod sexp;
 mod h_c18;
 mod h_c17;
 mod h_c15;
+mod h_c14;
 
 use std::io::{self, BufRead, Write};
 
@@ -71,6 +72,7 @@ fn dispatch(v: &Val) -> Val {
         1802 => h_c18::provider_hasher(&l[1]),
         1700 => h_c17::run(&l[1]),
         1500 => h_c15::run(&l[1]),
+        1400 => h_c14::run(&l[1]),
         _ => sexp::bad_input(),
     }
 }
